@@ -805,3 +805,42 @@ def protocol_schema(ctx: Ctx, rule: str, cls: ClassInfo, *, send_attr: str = "se
     for t, sites in self_events.items():
         ctx.ob(rule, "G8", sites[0][0], f"self-scheduled {t}", t in dispatch, f"the entity schedules `{t}` to itself and its handle_event has a branch for it", node=sites[0][1])
     return {"dispatch": dispatch, "sends": sends, "reads": reads, "self_events": self_events}
+
+
+# ------------------------------------------------------------------------------------------
+# acquire/release symmetry of counting models (used by C08 and C09)
+# ------------------------------------------------------------------------------------------
+
+def counting_symmetry(ctx: Ctx, rule: str, relpath: str, *, up: str = "acquire", down: str = "release") -> int:
+    """For every class of ``relpath`` that has both methods: the amount ``up`` adds to its counter equals the amount ``down`` takes
+    from it (`x += d` vs `x -= d` / `x = max(0, x - d)` / `x = x - d`).  Returns the number of classes checked."""
+    prog = ctx.prog
+    n = 0
+    for c in prog.module(relpath).classes.values():
+        if up not in c.methods or down not in c.methods or not any(isinstance(s, (ast.AugAssign, ast.Assign)) for s in walk_stmts(c.methods[up].node.body)):
+            continue
+        ups = {}
+        for st in walk_stmts(c.methods[up].node.body):
+            if isinstance(st, ast.AugAssign) and isinstance(st.op, ast.Add) and (path_of(st.target) or "").startswith("self._"):
+                ups[path_of(st.target)] = unparse(st.value)
+        downs = {}
+        for st in walk_stmts(c.methods[down].node.body):
+            tgt = None
+            amount = None
+            if isinstance(st, ast.AugAssign) and isinstance(st.op, ast.Sub):
+                tgt, amount = path_of(st.target), unparse(st.value)
+            elif isinstance(st, ast.Assign) and len(st.targets) == 1:
+                tgt = path_of(st.targets[0])
+                for x in ast.walk(st.value):
+                    if isinstance(x, ast.BinOp) and isinstance(x.op, ast.Sub) and path_of(x.left) == tgt:
+                        amount = unparse(x.right)
+            if tgt and amount is not None and tgt.startswith("self._"):
+                downs[tgt] = amount
+        shared = set(ups) & set(downs)
+        if not shared:
+            continue
+        n += 1
+        bad = [f"{t}: +{ups[t]} / -{downs[t]}" for t in sorted(shared) if ups[t] != downs[t]]
+        ctx.ob(rule, "G4", c.methods[down], f"{c.name}: {up} and {down} move the counter by the same amount", not bad,
+               f"{c.name}.{up} adds and .{down} removes the same amount ({', '.join(f'{t} ±{ups[t]}' for t in sorted(shared))})" + ("" if not bad else " — asymmetric: " + "; ".join(bad)))
+    return n
